@@ -187,7 +187,8 @@ def run(prog: Program, res: Result) -> None:
     if not okc:
         bad("R1-modes-table-shape", gm.node, "__get_mode__ does not index self._modes[id_optimizer][id_task]", key="multitask.Multitask.__get_mode__::orientation")
     # default when modes is None is serial; invalid mode raises ValueError
-    okd = any(isinstance(n, ast.Assign) and isinstance(n.value, ast.Constant) and n.value.value == "serial" for n in own_nodes(gm))
+    okd = any(isinstance(n, ast.Constant) and n.value == "serial" for n in own_nodes(gm)) or \
+        any(dotted(n) == "ModeSolver.SERIAL" for n in own_nodes(gm))
     res.ob(okd, None, "get_mode-default")
     if not okd:
         bad("R1-modes-table-shape", gm.node, "__get_mode__ no longer defaults to 'serial' when no modes were given", key="multitask.Multitask.__get_mode__::default")
